@@ -87,8 +87,8 @@ def default_may_raise(node):
     for n in walk_local(node):
         if isinstance(n, ast.Call) and not call_is_total(n):
             return frozenset({'builtins.Exception'})
-        if isinstance(n, ast.Await):
-            return frozenset({'builtins.Exception'})
+        if isinstance(n, (ast.Await, ast.Yield, ast.YieldFrom)):
+            return frozenset({'builtins.Exception'})   # a generator can have an exception thrown in at the yield
     return None
 
 
@@ -148,8 +148,11 @@ class CFG:
             return False
         key = id(helper)
         if key not in CFG._NORETURN:
-            h = CFG(helper, None, self.module)
-            CFG._NORETURN[key] = h.exit not in h.reach_from_entry()
+            # only a helper that ends the process counts (a method that merely raises - e.g. an abstract `raise
+            # NotImplementedError` - is overridden or handled elsewhere)
+            exits = any(isinstance(n, ast.Call) and dotted(n.func) in ('sys.exit', 'os._exit', 'exit') for n in walk_local(helper))
+            h = CFG(helper, None, self.module) if exits else None
+            CFG._NORETURN[key] = bool(h) and h.exit not in h.reach_from_entry()
         return CFG._NORETURN[key]
 
     def _new(self, kind, ast_=None, label=''):
